@@ -494,6 +494,20 @@ func runScenario(sc *Scenario, setup func(env *simEnv)) *RunData {
 		}
 		rd.Clock0 = simrt.Now()
 		env := &simEnv{rd: rd, api: api}
+		if debugPolicy && !simrt.RaceEnabled {
+			last := ""
+			simrt.OnRelease(internal.PolicyMuKey(rd.Store), func() {
+				sn := internal.Snapshot(rd.Store)
+				d := dumpRegions(sn) + " resident:"
+				for _, e := range sn.Resident {
+					d += fmt.Sprintf(" k%d:v=%d,w=%d,pw=%d,exp=%d,fl=%#x", e.Key, e.Value, e.Weight, e.PolicyWeight, e.Expire, e.Flags)
+				}
+				if d != last {
+					last = d
+					rd.Debug = append(rd.Debug, DebugLine{simrt.Stamp(), fmt.Sprintf("    [policy step by task %d] %s", simrt.CurID(), d)})
+				}
+			})
+		}
 		if setup != nil {
 			setup(env)
 		}
